@@ -350,7 +350,15 @@ def run(ctx):
 
     # ---- R03.10 PER length determinants of the MCS envelopes (rule R18.3 of C18, same facts): a 128-byte Client Info must not be announced as 0x80 --
     import c18
-    ctx.include(c18.run, ('R18.3',), 'R03.10')
+    ctx.include(c18.run, ('R18.3', 'R18.7'), 'R03.10')
+    # ---- R03.11 the MCS connect response is decoded under BER (T.125 is BER: servers use non-minimal length forms): read_connect_response (or
+    # connect, if it was merged into it) hands the payload to asn1::from_ber
+    import inline as _inl
+    mcb = _inl.force(P, ctx.body('core::mcs::Client::<S>::connect'), ['core::mcs::Client::<S>::read_connect_response'])
+    dec = [c.callee for c in mcb.calls if c.callee in ('nla::asn1::from_ber', 'nla::asn1::from_der')]
+    ctx.check(dec == ['nla::asn1::from_ber'], 'R03.11', 'connect_response:ber', 'the connect response is parsed with asn1::from_ber', mcb.where(),
+              'the MCS connect response is decoded with %s: a connect response using long-form lengths (what servers send) is rejected, so connecting '
+              'fails right after connect-initial' % ([d.rsplit('::', 1)[-1] for d in dec] or 'no ASN.1 decoder'))
 
 def field_stores(P, owner, field):
     """[(body key, operand stored)] for every statement storing into owner.field"""
